@@ -34,16 +34,17 @@ def _billing(cin, variant):
     k_dst = 1          # the second period carries the clock change, if any
     extra = pers[k_dst]["extra"]
     first_len = pers[0]["len"]
+    variant, zone = split_variant(variant)
     if extra == 0:
-        start = pd.Timestamp("2019-03-12")          # up to 235 days without a clock change
+        start = pd.Timestamp(ZONE_QUIET[zone])      # at least 200 days without a clock change
     elif extra < 0:
-        start = pd.Timestamp("2019-03-05") - pd.Timedelta(days=first_len)        # period 2 starts 5 March: contains 10 March (23 h)
+        start = pd.Timestamp(ZONE_DAYS[zone][1380]) - pd.Timedelta(days=5 + first_len)      # period 2 starts 5 days before the 23-hour day
     else:
-        start = pd.Timestamp("2019-10-29") - pd.Timedelta(days=first_len)        # period 2 starts 29 October: contains 3 November (25 h)
+        start = pd.Timestamp(ZONE_DAYS[zone][1500]) - pd.Timedelta(days=5 + first_len)      # period 2 starts 5 days before the 25-hour day
     bounds = [start]
     for p in pers:
         bounds.append(bounds[-1] + pd.Timedelta(days=p["len"]))
-    bidx = pd.DatetimeIndex(bounds).tz_localize(TZ)
+    bidx = pd.DatetimeIndex(bounds).tz_localize(zone)
     meter = pd.Series([float(p["amount"]) for p in pers] + [np.nan], index=bidx, name="observed")
     days = pd.date_range(bidx[0], bidx[-1], freq="D")
     temp = pd.Series(50.0 + (np.arange(len(days)) % 20), index=days, name="temperature")
@@ -70,22 +71,44 @@ def _billing(cin, variant):
     return out
 
 
-def _target_date(day_min):
-    return {1440: "2019-05-15", 1380: "2019-03-10", 1500: "2019-11-03"}[day_min]
+# zone -> dates of a plain day, the 23-hour day and the 25-hour day of 2019 (whole-hour clock changes)
+ZONE_DAYS = {
+    "America/Chicago":  {1440: "2019-05-15", 1380: "2019-03-10", 1500: "2019-11-03"},
+    "Europe/London":    {1440: "2019-05-15", 1380: "2019-03-31", 1500: "2019-10-27"},
+    "Australia/Sydney": {1440: "2019-05-15", 1380: "2019-10-06", 1500: "2019-04-07"},
+}
+# zone -> a start from which at least 200 days pass without a clock change
+ZONE_QUIET = {"America/Chicago": "2019-03-12", "Europe/London": "2019-04-02"}
 
 
-def _day_index(date, interval):
+def split_variant(variant):
+    v, _, zone = variant.partition("@")
+    return v, (zone or TZ)
+
+
+def _target_date(day_min, zone=TZ):
+    return ZONE_DAYS[zone][day_min]
+
+
+def _day_index(date, interval, zone=TZ, mh=0):
+    """readings of 9 meter days around the target; the mask selects the meter day (mh:00 .. next mh:00) that contains the
+    clock change of `date` (for mh > 0 it starts on the previous calendar day)"""
     d = pd.Timestamp(date)
-    start = (d - pd.Timedelta(days=4)).tz_localize(TZ)
-    end = (d + pd.Timedelta(days=5)).tz_localize(TZ)
+    start = (d - pd.Timedelta(days=4)).tz_localize(zone)
+    end = (d + pd.Timedelta(days=5)).tz_localize(zone)
     idx = pd.date_range(start, end, freq="%dmin" % interval, inclusive="left")
-    return idx, idx.date == d.date()
+    if mh == 0:
+        return idx, idx.date == d.date()
+    lo = (d - pd.Timedelta(days=1) + pd.Timedelta(hours=mh)).tz_localize(zone)
+    hi = (d + pd.Timedelta(hours=mh)).tz_localize(zone)
+    return idx, (idx >= lo) & (idx < hi)
 
 
 def _subdaily(cin, variant):
     em = _st["em"]
-    date = _target_date(cin["dayMin"])
-    idx, on = _day_index(date, cin["interval"])
+    variant, zone = split_variant(variant)
+    date = _target_date(cin["dayMin"], zone)
+    idx, on = _day_index(date, cin["interval"], zone)
     obs = np.full(len(idx), 5.0)
     pos = np.where(on)[0]
     if len(pos) != cin["total"]:
@@ -115,8 +138,10 @@ def _subdaily(cin, variant):
 
 def _temp(cin, variant):
     em = _st["em"]
-    date = _target_date(cin["dayMin"])
-    idx, on = _day_index(date, cin["interval"])
+    variant, zone = split_variant(variant)
+    mh = cin.get("mh", 0)
+    date = _target_date(cin["dayMin"], zone)
+    idx, on = _day_index(date, cin["interval"], zone, mh)
     t = np.full(len(idx), 50.0)
     pos = np.where(on)[0]
     if len(pos) != cin["total"]:
@@ -126,20 +151,26 @@ def _temp(cin, variant):
     feed = pd.Series(t, index=idx, name="temperature")
     if variant == "feed-utc":
         feed.index = feed.index.tz_convert("UTC")
-    days = pd.date_range(idx[0].normalize(), idx[-1].normalize(), freq="D")
+    elif variant == "feed-kolkata":             # the same instants written with a +05:30 offset
+        feed.index = feed.index.tz_convert("Asia/Kolkata")
+    wall = pd.date_range(idx[0].tz_localize(None).normalize(), idx[-1].tz_localize(None).normalize(), freq="D") + pd.Timedelta(hours=mh)
+    days = wall.tz_localize(zone)
+    if mh:
+        days = days[:-1]                        # the last meter day would start after the last reading
     meter = pd.Series(20.0 + np.arange(len(days)), index=days, name="observed")
     out = {"res": "ok", "has": False, "n": 0, "d": 1, "ok": False, "notnull": -1, "null": -1}
     try:
         C = em.DailyBaselineData if variant != "billing" else em.DailyBaselineData
         obj = C.from_series(meter, feed, is_electricity_data=False)
         df = obj.df
-        combined = pd.concat([meter.to_frame("observed"), feed.tz_convert(TZ).to_frame("temperature")], axis=1)
+        combined = pd.concat([meter.to_frame("observed"), feed.tz_convert(zone).to_frame("temperature")], axis=1)
         cov = obj._set_data(combined)[1]
     except Exception as ex:
         out["res"] = type(ex).__name__
         out["err"] = str(ex)[:200]
         return out
-    target = pd.Timestamp(date).date()
+    # the meter day that contains the clock change: the calendar day itself, or (meter read at mh:00) the one starting the day before
+    target = (pd.Timestamp(date) - pd.Timedelta(days=1 if mh else 0)).date()
     row = df[df.index.date == target]
     if len(row) == 1 and np.isfinite(row["temperature"].iloc[0]):
         out["has"] = True
